@@ -90,7 +90,7 @@ func (dist *NegativeBinomialDistribution) ScalarType() ScalarType {
 }
 
 func (dist *NegativeBinomialDistribution) LogPdf(r Scalar, x ConstScalar) error {
-  if v := x.GetFloat64(); v < 0.0 || math.Floor(v) != v {
+  if v := x.GetFloat64(); v < 0.0 || math.Floor(v) != v || math.IsInf(v, 1) {
     r.SetFloat64(math.Inf(-1))
     return nil
   }
